@@ -110,6 +110,10 @@ impl UniformBigUint {
     where
         R: Rng + ?Sized,
     {
+        #[cfg(feature = "verif-hooks")]
+        if let Some(crate::verif_hooks::dp::Answer::Big(v)) = crate::verif_hooks::dp::intercept(crate::verif_hooks::dp::Layer::Uniform { low: self.base.clone(), high: &self.base + &self.len }) {
+            return v;
+        }
         &self.base + random_biguint_below(rng, &self.len)
     }
 }
